@@ -37,6 +37,7 @@ CONSTANTS
   SinkMode,      \* "always" | "coupled" | "independent"
   Cap,           \* sink capacity (coupled mode)
   FaultOps,      \* subset of {"next","ready","send","flush","close"}: ops at which one fault may be injected
+  FaultKs,       \* the fault hits the k-th next use of the operation, k in FaultKs (e.g. {1} or {1, 2})
   AllowEof,      \* peer may end the read side
   AllowHandleDrop,
   AtomicPolls,
@@ -557,9 +558,9 @@ SinkCredit ==
   /\ SinkMode = "independent" /\ EnvOK /\ S.credits < 1 /\ S.dstate = "live"
   /\ S' = Rec(F_SinkCredit(S), [a |-> "SinkCredit"])
 
-Arm(op) ==
+Arm(op, k) ==
   /\ EnvOK /\ S.fault = NoFault /\ S.faultsLeft > 0 /\ S.dstate = "live"
-  /\ S' = Rec([F_Arm(S, op, 1) EXCEPT !.faultsLeft = @ - 1], [a |-> "Arm", op |-> op, k |-> 1])
+  /\ S' = Rec([F_Arm(S, op, k) EXCEPT !.faultsLeft = @ - 1], [a |-> "Arm", op |-> op, k |-> k])
 
 Next ==
   \/ \E c \in Callers, dl \in Deadlines : CallStart(c, dl)
@@ -568,7 +569,7 @@ Next ==
   \/ DispatchPoll \/ DispatchStep
   \/ \E id \in 0..(S.nextId) : PeerSend(id)
   \/ PeerEof \/ Tick \/ SinkOpen \/ SinkBlock \/ SinkCredit
-  \/ \E op \in FaultOps : Arm(op)
+  \/ \E op \in FaultOps, k \in FaultKs : Arm(op, k)
 
 Spec == Init /\ [][Next]_S
 
